@@ -12,6 +12,7 @@ Definition expected_pins_C07 : list (string * string) := [
   ("kernel/goruntime/bootstrap.go:sysAlloc", "7de401b05f1ea268");
   ("kernel/goruntime/bootstrap.go:sysMap", "2450486ab948c4de");
   ("kernel/goruntime/bootstrap.go:sysReserve", "3394a8da8142be72");
+  ("kernel/mm/pmm/bitmap_allocator.go:BitmapAllocator.setupPoolBitmaps", "59da382815a3ec0a");
   ("kernel/mm/vmm/addr_space.go:<declarations>", "7cb0f754eb74f54e");
   ("kernel/mm/vmm/addr_space.go:EarlyReserveRegion", "39eb56fdd9e3432b");
   ("kernel/mm/vmm/map.go:IdentityMapRegion", "76953440c098a274");
